@@ -1038,3 +1038,66 @@ func checkC15Invalid(c *Ctx, n int, reps int) {
 		c.Check("invalid-declaration-is-reported-identically", same, "C15:nondeterministic", in, diff, "byte-identical observations")
 	}
 }
+
+// checkC15AliasClash: two or three sibling commands declare the SAME alias (it is no command's name).  Which of
+// them the word selects is settled by the order of declaration, so every run — parse, completion behind the
+// word, help — gives the same observations.
+func checkC15AliasClash(c *Ctx, n int, reps int) {
+	r := c.Rng
+	for i := 0; i < n; i++ {
+		k := 2 + r.Intn(3)
+		root := &StructDesc{Fields: []FieldDesc{{Name: "V", Exported: true, Kind: "v", Ty: "bool", Tag: `short:"v"`}}}
+		holder := root
+		if r.Intn(2) == 0 {
+			holder = &StructDesc{}
+			root.Fields = append(root.Fields, FieldDesc{Name: "Top", Exported: true, Kind: "s", Sub: holder, Tag: `command:"top"`})
+		}
+		for j := 0; j < k; j++ {
+			sub := &StructDesc{Fields: []FieldDesc{{Name: fmt.Sprintf("Opt%d", j), Exported: true, Kind: "v", Ty: "bool", Tag: fmt.Sprintf(`long:"only-%d"`, j)}}}
+			tag := fmt.Sprintf(`command:"cmd%d" alias:"x%d" alias:"shared"`, j, j)
+			if j == k-1 && k > 2 && r.Intn(2) == 0 {
+				tag = fmt.Sprintf(`command:"cmd%d"`, j) // (one sibling without the alias)
+			}
+			holder.Fields = append(holder.Fields, FieldDesc{Name: fmt.Sprintf("C%d", j), Exported: true, Kind: "s", Sub: sub, Tag: tag})
+		}
+		cs := &Case{Name: "app", NsDelim: ".", EnvNsDelim: "_", Opts: flags.HelpFlag}
+		cs.Build = []BuildOp{{Kind: "addgroup", Target: 1, Short: "Application Options", Struct: root}}
+		pre := []string{}
+		if holder != root {
+			pre = []string{"top"}
+		}
+		cs.Ops = []Op{{Kind: "parse", Args: append(append([]string{}, pre...), "shared", "w")},
+			{Kind: "complete", Args: append(append([]string{}, pre...), "shared", "--o")},
+			{Kind: "parse", Args: append(append([]string{}, pre...), "shared", "--help")}}
+		cs.Description = fmt.Sprintf("%d sibling commands, alias `shared` declared by several: %s", k, describeOps(cs))
+		var first *CaseResult
+		c.RunCases([]*Case{cs}, func(cr *CaseResult) { first = cr; c.classifyCase(cr) })
+		if first == nil {
+			continue
+		}
+		c.Class(fmt.Sprintf("c15/alias-clash: siblings=%d nested=%v", k, holder != root))
+		same := true
+		diff := ""
+		rep := 1
+		for ; rep < reps && same; rep++ {
+			var impl []string
+			safe(func() {
+				rr, outs := BuildReal(cs)
+				impl = append(impl, outs...)
+				impl = append(impl, rr.RunOps()...)
+			})
+			same = len(impl) == len(first.Impl)
+			for li := 0; same && li < len(impl); li++ {
+				if impl[li] != first.Impl[li] {
+					same = false
+					diff = fmt.Sprintf("run 1: %s | run %d: %s", decodeLine(first.Impl[li]), rep+1, decodeLine(impl[li]))
+				}
+			}
+		}
+		in := map[string]interface{}{"case": cs.Description, "repetitions": rep}
+		if !same {
+			in["case_file"] = c.saveCase(first)
+		}
+		c.Check("an-alias-several-siblings-declare-selects-the-same-command-every-time", same, "C15:nondeterministic", in, diff, "byte-identical observations")
+	}
+}
